@@ -88,3 +88,22 @@ func thmLevenshteinTotal(a, b []byte) {
 	Global(a, b, Levenshtein)
 	Local(a, b, Levenshtein)
 }
+
+//@ theorem C09.swapSymmetric
+//@   props C09
+//@   requires imul(len(a) + 1, len(b) + 1) <= 4611686018427387904 && imul(len(b) + 1, len(a) + 1) <= 4611686018427387904
+//@   requires has(m, key2(255, 255)) && mapval(m)[key2(255, 255)] == 0.0
+//@   requires forall p int :: 0 <= p && p < len(a) ==> has(m, key2(a[p], 255)) && has(m, key2(255, a[p]))
+//@   requires forall q int :: 0 <= q && q < len(b) ==> has(m, key2(255, b[q])) && has(m, key2(b[q], 255))
+//@   requires forall p int, q int :: 0 <= p && p < len(a) && 0 <= q && q < len(b) ==> has(m, key2(a[p], b[q])) && has(m, key2(b[q], a[p]))
+//@   requires forall x int, y int :: {key2(x, y)} mapval(m)[key2(x, y)] == mapval(m)[key2(y, x)]
+//@   use-lemma swapGlobal(fieldarr(blocks1, score), fieldarr(blocks1, step), fieldarr(blocks2, score), fieldarr(blocks2, step), a, b, len(a), len(b), mapval(m), imul(len(a) + 1, len(b) + 1), len(a), len(b))
+//@   ensures result.0 == result.1
+// For a matrix that is symmetric (gap scores included) and has gap-open score 0 - every shipped matrix and
+// Levenshtein - swapping the arguments of Global leaves the score unchanged: the table of (b, a) is the
+// transpose of the table of (a, b) (lemma swapGlobal).
+func thmSwapSymmetric(a, b []byte, m SubstitutionMatrix) (float64, float64) {
+	_, s1 := Global(a, b, m)
+	_, s2 := Global(b, a, m)
+	return s1, s2
+}
